@@ -191,11 +191,19 @@ def tensor_elementwise (p : Params) (ops : List View) : Built :=
 
 /-- `ttv` (tensor.py:1784-1805): `c = self.data.copy()`, transposed so that the multiplied modes
 come last (`p.perm`), then per mode an F-reshape to a matrix and a `dot` (new array); the
-last product is wrapped without copying.  flag "scalar": every mode multiplied out. -/
+last product is wrapped without copying.  flag "scalar": every mode multiplied out.
+flag "none": NO mode is multiplied (`dims=[]`, or `exclude_dims` = every mode): the loop body never
+runs, so the only thing between the receiver's data and the no-copy constructor is that first
+`self.data.copy()` (NumPy's default C order: the idiom `T ∘ copy("F") ∘ T`) and the transposition
+by the identity (`p.perm`), a view.  Same number of registers as the general case (the composite
+entries `ttensor.ttv` / `sumtensor.ttv` find the result in register `b + 5` either way). -/
 def tensor_ttv (p : Params) (ops : List View) : Built :=
   let b := ops.length
   if p.flag == "scalar" then
     { prog := [.copy 0, .transpose b p.perm, .reshapeF (b + 1) p.dims, .fresh [] (List.range b)], res := [] }
+  else if p.flag == "none" then
+    { prog := [.tr 0, .copy b, .tr (b + 1), .transpose (b + 2) p.perm] ++ tensorCtor (b + 3) (b + 4) p.shape false,
+      res := [("data", b + 5)] }
   else
     { prog := [.copy 0, .transpose b p.perm, .reshapeF (b + 1) p.dims, .fresh p.shape (List.range b)] ++
               tensorCtor (b + 3) (b + 4) p.shape false,
